@@ -173,6 +173,7 @@ class Sim:
     self.ident_map = {}
     self.max_now = 0.0
     self.n_events = 0
+    self.scratch = {}   # scenario-owned; returned with the run outcome
 
   # ---- trace -------------------------------------------------------------
   def log(self, *ev):
@@ -580,6 +581,7 @@ class Sim:
     result['counters'] = dict(self.counters)
     result['threads'] = len(self.threads)
     result['tail'] = list(self.tail)
+    result['scratch'] = self.scratch
     return result
 
   def _hard_fail(self, msg):
@@ -893,13 +895,29 @@ _fine_files: set[str] = set()
 _mon_ready = False
 
 
+# Methods that containers call implicitly (dict/set probing, f-strings): how
+# often they run depends on hash-table internals, not on the program, so they
+# (and what they call) are never pre-emption points.
+_IMPLICIT = frozenset(('__eq__', '__ne__', '__hash__', '__str__', '__repr__',
+                       '__lt__', '__bool__', '__len__'))
+
+
 def _py_start(code, offset):
   if code.co_filename not in _fine_files:
     return sys.monitoring.DISABLE
   s = Sim.current
   if s is not None and s.fine and not s.aborting:
     if _real_get_ident() == s.cur.real_ident:
+      f = sys._getframe(1)  # pylint: disable=protected-access
+      for _ in range(4):
+        if f is None:
+          break
+        if f.f_code.co_name in _IMPLICIT:
+          return None
+        f = f.f_back
       s.fine_yields += 1
+      if FULL_LOG is not None:
+        FULL_LOG.append(('fn', code.co_qualname))
       s.yield_point('fn')
   return None
 
